@@ -1014,9 +1014,10 @@ def frag_raw_frame(fn):
 
 
 def frag_read_frame_nbytes(fn):
-    """ImageFileReader.read_frame_raw: the index guard + the native (not encapsulated) branch up to
-    `frame_data = self._fp.read(n_bytes)`; the fragment computes n_bytes from index.  The position that is
-    read (`self._fp.seek(self._first_frame_offset + self._offset_table[index], 0)`) must be textually unchanged."""
+    """ImageFileReader.read_frame_raw (state after the D118 fix): the index guard + the native (not encapsulated)
+    branch up to `self._fp.seek(self._first_frame_offset + frame_offset, 0)`; `frame_data = self._fp.read(n_bytes)`;
+    the fragment computes (frame_offset, n_bytes) from index.  Nothing but logging may stand between the guard and
+    the branch, and the seek / read at the end of the native branch must be textually unchanged."""
     body = _stmts(fn)
     texts = [src(s) for s in body]
     ifs = [n for n in body if isinstance(n, ast.If) and src(n.test) == 'self.transfer_syntax_uid.is_encapsulated']
@@ -1026,17 +1027,19 @@ def frag_read_frame_nbytes(fn):
     if not (isinstance(body[0], ast.If) and isinstance(body[0].body[-1], ast.Raise) and not body[0].orelse):
         raise Refuse('read_frame_raw: the first statement is not the index guard')
     pre = [t for t in texts[1:i] if not t.startswith('logger.')]
-    if pre != ['frame_offset = self._offset_table[index]', 'self._fp.seek(self._first_frame_offset + frame_offset, 0)']:
-        raise Refuse(f'read_frame_raw: the seek before the branch changed: {pre}')
+    if pre != []:
+        raise Refuse(f'read_frame_raw: statements between the guard and the branch: {pre}')
     native = ifs[0].orelse
-    if not native or src(native[-1]) != 'frame_data = self._fp.read(n_bytes)':
-        raise Refuse('read_frame_raw: native branch does not end with `frame_data = self._fp.read(n_bytes)`')
+    if len(native) < 3 or [src(s) for s in native[-2:]] != [
+            'self._fp.seek(self._first_frame_offset + frame_offset, 0)', 'frame_data = self._fp.read(n_bytes)']:
+        raise Refuse('read_frame_raw: native branch does not end with the seek to _first_frame_offset + frame_offset '
+                     'and `frame_data = self._fp.read(n_bytes)`')
     if texts[i + 1:] != ["if len(frame_data) == 0:\n    raise OSError(f'Failed to read frame #{index}.')", 'return frame_data']:
         raise Refuse('read_frame_raw: the code after the branch changed')
     for s in body[:i] + native:
         if 'index' in assigned_names([s]):
             raise Refuse('read_frame_raw: index reassigned')
-    return [body[0]] + native[:-1]
+    return [body[0]] + native[:-2]
 
 
 def frag_getitem_size(fn):
@@ -1314,7 +1317,7 @@ FUNCTIONS = {
                                                  'a_metadata_PhotometricInterpretation_is_YBR_FULL_422',
                                                  'a_metadata_Rows', 'a_metadata_Columns']),
     'read_frame_nbytes': dict(file='io.py', path=['ImageFileReader', 'read_frame_raw'], fragment=frag_read_frame_nbytes,
-                              params=[('index', Z)], outputs=['n_bytes'],
+                              params=[('index', Z)], outputs=['frame_offset', 'n_bytes'],
                               extras=['a_number_of_frames', 'a_bytes_per_frame_uncompressed', 'a_metadata_BitsAllocated',
                                       'a_pixels_per_frame']),
     'tile_pixel_matrix': dict(file=SPATIAL, path=['tile_pixel_matrix']),
@@ -1373,8 +1376,9 @@ TARGETS = {
                                 'Ok (C05_Model.lazy_bpf bits (if negb (bits =? 1) && ybr then R*C*2 else ppf))'),
     'read_frame_nbytes/C05': dict(fn='read_frame_nbytes', statement=
                                   'forall i n bits npx, t_read_frame_nbytes i n (C05_Model.lazy_bpf bits npx) bits npx = '
-                                  'if (i <? 0) || (i >=? n) then Err "ValueError" else Ok (C05_Model.lazy_nbytes bits npx i)   '
-                                  '(index guard + number of bytes read by the native branch of read_frame_raw)'),
+                                  'if (i <? 0) || (i >=? n) then Err "ValueError" else Ok (C05_Model.lazy_offset bits npx i, '
+                                  'C05_Model.lazy_nbytes bits npx i)   (index guard + frame offset + number of bytes read by '
+                                  'the native branch of read_frame_raw, all from the current metadata: D118 fix)'),
     'slice_indices/C03': dict(fn='standardize_slice_indices', statement=
                               'forall s e n ai, t_standardize_slice_indices s e n ai = C03_Model.std_slice s e n ai'),
     'row_column_indices/C03': dict(fn='standardize_row_column_indices', pre=['TInt_Spec_rc'], statement=
